@@ -490,6 +490,45 @@ func RejBoundedPoly(eta int64, seed []byte) Poly {
 	return a
 }
 
+// SecretSamplerBlocks returns, for the key generation seed xi, the largest
+// number of SHAKE256 blocks (136 octets) RejBoundedPoly reads for one of the
+// K+L secret polynomials.  Two blocks hold 544 candidates and nearly always
+// suffice; with eta = 4 (acceptance 9/16) about one seed in 14 000 needs a
+// third one.
+func (p *Params) SecretSamplerBlocks(xi []byte) int {
+	var seed []byte
+	if p.NIST {
+		seed = H(128, xi, []byte{byte(p.K), byte(p.L)})
+	} else {
+		seed = H(128, xi)
+	}
+	rhoP := seed[32:96]
+	most := 0
+	var buf [136]byte
+	for n := 0; n < p.K+p.L; n++ {
+		h := sha3.NewShake256()
+		h.Write(rhoP)
+		h.Write([]byte{byte(n), byte(n >> 8)})
+		got, blocks := 0, 0
+		for got < N {
+			h.Read(buf[:])
+			blocks++
+			for _, z := range buf {
+				if _, ok := coeffFromHalfByte(p.Eta, int64(z&15)); ok {
+					got++
+				}
+				if _, ok := coeffFromHalfByte(p.Eta, int64(z>>4)); ok {
+					got++
+				}
+			}
+		}
+		if blocks > most {
+			most = blocks
+		}
+	}
+	return most
+}
+
 // ExpandA is Algorithm 32: the matrix is returned in the NTT domain, A[r][s].
 func (p *Params) ExpandA(rho []byte) [][]Poly {
 	A := make([][]Poly, p.K)
